@@ -16,8 +16,8 @@ CONSTANTS Mode,       \* "c05" | "c08"
 Write(file, q) == ndJsonSerialize(file, q)
 
 ASSUME Mode = "c08" =>
-  /\ Write("cases_c08.ndjson", NoExp("p", SetToSeq(C08All(PartN, PartSubN) \cup OneFileCases(LitTypes(AbsCls), PartN + 1, OneFileN))))
-  /\ Write("mc_c08.ndjson", SetToSeq(C08All(MachN, 0) \ LongCases))
+  /\ Write("cases_c08.ndjson", NoExp("p", C08Seq(PartN, PartSubN, OneFileN)))
+  /\ Write("mc_c08.ndjson", C08MachineSeq(MachN))
 ASSUME Mode = "c05" =>
   /\ Write("cases_c05.ndjson", WithExp("c", SetToSeq(C05All(ProgN))))
   /\ Write("mc_c05.ndjson", SetToSeq(C05Machine(MachPaths, MachProgN)))
